@@ -76,6 +76,8 @@ class Tap:
         self.log = []
         self.synced = {}
 
+    read_opens = False
+
     def boundary(self, name):
         if not self.active:
             return
@@ -131,6 +133,8 @@ class Tap:
             if tap.active and isinstance(path, (str, os.PathLike)) and tap.inside(path) and any(c in mode for c in 'wxa+'):
                 tap.boundary('open')
                 return FileProxy(tap, io.open(path, mode, *a, **kw), path)
+            if tap.active and tap.read_opens and isinstance(path, (str, os.PathLike)) and tap.inside(path):
+                tap.boundary('open_read')          # fault family only: opening a file for reading is an I/O call too
             return io.open(path, mode, *a, **kw)
         CM.open = my_open
         UM.open = my_open
@@ -306,6 +310,7 @@ def run(prop, family, seed, index, tier):
         work = os.path.join(root, 'work')
         shutil.copytree(base, work)
         tap = Tap(work, lambda k, name: None)
+        tap.read_opens = True
         c = Container(work)
         tap.install()
         try:
@@ -316,16 +321,21 @@ def run(prop, family, seed, index, tier):
         total, names = tap.n, list(tap.log)
         shutil.rmtree(work)
         ks = list(range(total)) if total <= 60 else sorted(rng.sample(range(total), 60))
+        # opening a file may also fail with EACCES (PermissionError, which some callers handle): second pass for opens
+        plan_ = [(k, 'EIO') for k in ks] + [(k, 'EACCES') for k in ks if names[k] in ('open', 'open_read')][:12]
         outcomes = {'raised': 0, 'completed': 0}
-        for k in ks:
+        for k, errkind in plan_:
             shutil.copytree(base, work)
 
-            def handler(kk, name, _k=k):
+            def handler(kk, name, _k=k, _e=errkind):
                 if kk == _k:
                     if name.startswith('sql_'):
                         raise OperationalError('injected', {}, OSError(errno.EIO, 'injected I/O error'))
+                    if _e == 'EACCES':
+                        raise PermissionError(errno.EACCES, 'injected permission error')
                     raise OSError(errno.EIO, 'injected I/O error')
             tap = Tap(work, handler)
+            tap.read_opens = True
             c = Container(work)
             tap.install()
             try:
@@ -339,7 +349,7 @@ def run(prop, family, seed, index, tier):
                 c.close()
             except Exception:
                 pass
-            where = f'I/O error injected at call #{k} ({names[k]}) of {total}'
+            where = f'I/O error ({errkind}) injected at call #{k} ({names[k]}) of {total}'
             check_state(prop, work, model, targets, adding, op, where, ht)
             if op != 'repack':
                 pk = os.path.join(work, 'packs')
@@ -366,7 +376,7 @@ def run(prop, family, seed, index, tier):
                 finally:
                     c2.close()
             shutil.rmtree(work)
-        return {'sig': [family, prop, op, index], 'nontrivial': total >= 3, 'op': op, 'faults_injected': len(ks),
+        return {'sig': [family, prop, op, index], 'nontrivial': total >= 3, 'op': op, 'faults_injected': len(plan_),
                 'io_calls': total, 'outcomes': outcomes}
     finally:
         shutil.rmtree(root, ignore_errors=True)
